@@ -111,15 +111,17 @@ def wrap64 (i : Int) : Int :=
   let r := i % (P64 : Int)
   if r ≥ (P63 : Int) then r - (P64 : Int) else r
 
+/-- one step of `seedToInt64`: `result = radix*result + v` in int64 arithmetic, or failure on an invalid rune -/
+def seedStep (acc : Option Int) (c : Char) : Option Int :=
+  match acc with
+  | none => none
+  | some r =>
+    if '0' ≤ c ∧ c ≤ '9' then some (wrap64 (36 * r + (c.toNat - 48)))
+    else if 'a' ≤ c ∧ c ≤ 'z' then some (wrap64 (36 * r + (c.toNat - 97 + 10)))
+    else none
+
 /-- `internal/rng.seedToInt64`: base 36 over `[0-9a-z]`, int64 wrap-around; `none` = invalid rune -/
-def seedToInt64 (s : String) : Option Int :=
-  s.toList.foldl (fun acc c =>
-    match acc with
-    | none => none
-    | some r =>
-      if '0' ≤ c ∧ c ≤ '9' then some (wrap64 (36 * r + (c.toNat - 48)))
-      else if 'a' ≤ c ∧ c ≤ 'z' then some (wrap64 (36 * r + (c.toNat - 97 + 10)))
-      else none) (some 0)
+def seedToInt64 (s : String) : Option Int := s.toList.foldl seedStep (some 0)
 
 /-- `RNG.IntBetween(lo, hi) = lo + Intn(hi-lo+1)` in int64 arithmetic -/
 def intBetween (g : Src) (lo hi : Int) : DrawRes Int :=
